@@ -245,8 +245,8 @@ func (c *counter) Add(v float64) {
 }
 
 const (
-	detect = 300 * time.Millisecond // detection time armed by a "short" packet (mult 1)
-	wait   = 800 * time.Millisecond // how long a detection-timeout event waits
+	detect = 1500 * time.Millisecond       // detection time armed by a "short" packet (mult 1)
+	wait   = detect + 250*time.Millisecond // a detection-timeout event sleeps this long, then polls (settle)
 )
 
 // ---------------------------------------------------------------- histories
@@ -619,7 +619,7 @@ func execHist(h *hist) {
 			if ev.first {
 				time.Sleep(wait)
 			}
-			settle(rt.DP.Links[ev.link].BFDSession(), ev.exp)
+			settleFor(rt.DP.Links[ev.link].BFDSession(), ev.exp, 8*time.Second)
 			ev.up = rt.DP.Links[ev.link].IsUp()
 		default:
 			l := rt.DP.Links[ev.link]
@@ -636,7 +636,7 @@ func execHist(h *hist) {
 			}
 			if isSess[ev.link] && !ev.discard {
 				accepted[ev.link]++
-				for i := 0; rx[ev.link].n.Load() < accepted[ev.link] && i < 40000; i++ {
+				for t0 := time.Now(); rx[ev.link].n.Load() < accepted[ev.link] && time.Since(t0) < 5*time.Second; {
 					time.Sleep(50 * time.Microsecond)
 				}
 				settle(l.BFDSession(), ev.exp)
@@ -706,7 +706,7 @@ func main() {
 	run.CheckFn = "RouterBfd.check"
 	run.DiagFn = "RouterBfd.diag"
 	run.CaseType = "RouterBfd.case"
-	run.ShardSize = 16
+	run.ShardSize = 24
 	run.Rule = "one case = one history on a real dataplane whose external/sibling links are real udpip links " +
 		"(connectedLink / detachedLink) created by AddExternalInterface / AddNextHop with BFD on or off per link: " +
 		"2-3 data packets (rtgen: transit, cross-over, first hop, peering, inbound; a quarter mutated: router alert, " +
@@ -745,7 +745,7 @@ func main() {
 	run.Prelude = strings.Join(prelude, "\n")
 
 	nh := run.Count(96, 2400)
-	const batch = 48
+	const batch = 96
 	for lo := 0; lo < nh; lo += batch {
 		hi := min(lo+batch, nh)
 		nowSec := time.Now().Unix()
@@ -755,7 +755,7 @@ func main() {
 			hs[i-lo] = genHist(rng.Fork(uint64(i)), c.name, c.cfg, c.scratch, nowSec)
 		}
 		var wg sync.WaitGroup
-		sem := make(chan struct{}, 48)
+		sem := make(chan struct{}, 96)
 		for i, h := range hs {
 			if !run.WantID(lo + i) {
 				continue
@@ -851,10 +851,13 @@ func main() {
 }
 
 // settle gives the session goroutine time to finish the transition it is in: it waits (at most
-// 300 ms) until the local state is the one the real transition table yields. Whatever the state
-// is afterwards is what gets recorded, so a wrong state is not masked, only a slow one awaited.
-func settle(s *bfd.Session, exp int) {
-	for i := 0; s != nil && s.VerifLocalState() != exp && i < 3000; i++ {
-		time.Sleep(100 * time.Microsecond)
+// 2 s) until the local state is the one the real transition table yields. Whatever the state is
+// afterwards is what gets recorded, so a wrong state is not masked, only a slow one awaited.
+func settle(s *bfd.Session, exp int) { settleFor(s, exp, 2*time.Second) }
+
+func settleFor(s *bfd.Session, exp int, bound time.Duration) {
+	t0 := time.Now()
+	for s != nil && s.VerifLocalState() != exp && time.Since(t0) < bound {
+		time.Sleep(200 * time.Microsecond)
 	}
 }
